@@ -1888,3 +1888,49 @@ example : (Gql.Validate.validate [Gql.Validate.Rules.overlappingFieldsCanBeMerge
    C08_OverlappingFieldsCanBeMerged schema docBad (hyps docBad (by decide +kernel)) (by decide +kernel) (by decide +kernel)
       (by decide +kernel) (by decide +kernel) (by decide +kernel) (by decide +kernel) (by decide +kernel) (by decide +kernel)
       (by decide +kernel) (by decide +kernel) (by decide +kernel) (by decide +kernel)⟩
+
+section C08
+open Gql Gql.Validate Gql.Validate.Rules
+
+/-- `c08AllRules` IS the default rule list of the library -/
+theorem C08_all_rules_eq_default : defaultRules = c08AllRules := rfl
+
+/-- **C08**: `validate` with the default rules accepts exactly the documents that satisfy all
+    specification predicates -/
+theorem C08_validate_default_iff_spec (s : Schema) (d : QueryDoc) (h : C08Hyps s d) (ho : C08OverlapHyps s d) :
+    validate defaultRules s d = .ok [] ↔ Spec.specValid s d = true := by
+  rw [C08_all_rules_eq_default]
+  exact C08_default_rules_iff_spec s d h ho
+
+#print axioms C08_validate_default_iff_spec
+end C08
+
+namespace OverlapCompleteWitness
+open Gql Gql.Validate Gql.Validate.Witness Gql.Validate.OverlapWitness
+
+/-- `{ id }  fragment F on Node { u { a: id a: x } }` — the fragment is never spread -/
+def docUnused : QueryDoc :=
+  { ops := [query (.cons (leaf "id" "id" 2) .nil)],
+    frags := [frag "F" (.cons (.field (str "u") (str "u") [] [] (.cons (leaf "a" "id" 31) (.cons (leaf "a" "x" 37) .nil)) (at' 27)) .nil) 7] }
+
+end OverlapCompleteWitness
+
+open OverlapCompleteWitness in
+/-- the hypothesis `Spec.fragmentsMustBeUsed` of `C08_OverlappingFieldsCanBeMerged` is NEEDED (the recorded
+    rule-level difference): inside a fragment definition that no operation reaches the `field` observer of the
+    rule does nothing (`walker.CurrentOperation == nil`), so the conflict in the sub-selection of `u` is not
+    reported, while §5.3.2 judges every selection set of the document.  All other hypotheses hold; the
+    document is rejected by NoUnusedFragments. -/
+theorem C08_overlap_unused_fragment_counterexample :
+    SetStartsNodup docUnused ∧
+    (Spec.noFragmentCycles docUnused && Spec.fragmentNameUniqueness docUnused && Spec.wellParented schema docUnused &&
+     Spec.knownRootType schema docUnused && Spec.fragmentSpreadTargetDefined docUnused &&
+     Spec.fragmentSpreadTypeExistence schema docUnused && Spec.fragmentsOnCompositeTypes schema docUnused &&
+     Spec.fieldSelections schema docUnused && Spec.leafFieldSelections schema docUnused &&
+     Spec.argumentUniqueness schema docUnused && Spec.inputObjectFieldUniqueness schema docUnused) = true ∧
+    Spec.fragmentsMustBeUsed docUnused = false ∧
+    Gql.Validate.validate [Gql.Validate.Rules.overlappingFieldsCanBeMerged] schema docUnused = .ok [] ∧
+    Spec.fieldSelectionMerging schema docUnused = false := by
+  refine ⟨by decide +kernel, by decide +kernel, by decide +kernel, by decide +kernel, by decide +kernel⟩
+
+#print axioms C08_overlap_unused_fragment_counterexample
